@@ -439,7 +439,7 @@ func btoi(b bool) int {
 
 // TestC17Corrupt: every single-field corruption is rejected (or yields something valid).
 func TestC17Corrupt(t *testing.T) {
-	col := ev.Get("C17", "corrupt", "each generated valid set with exactly one corruption (negative concurrency/queue_limit/delay, delay with queue_limit 0, dependency on a missing or foreign task, unknown strategy, duplicate pipeline name across files, wrong scalar types); oracle: LoadRecursively returns an error, or a result for which the independently written validity predicate holds, never a panic; kinds that cannot be valid must be rejected; non-trivial = every case; distinct by (corruption kind, emitted YAML)")
+	col := ev.Get("C17", "corrupt", "each generated valid set with exactly one corruption (negative concurrency/queue_limit/delay, delay with queue_limit 0, dependency on a missing or foreign task, unknown strategy, duplicate pipeline name across files - with another or with the very same body -, wrong scalar types); oracle: LoadRecursively returns an error, or a result for which the independently written validity predicate holds, never a panic; kinds that cannot be valid must be rejected; non-trivial = every case; distinct by (corruption kind, emitted YAML)")
 	kinds := []string{"negConcurrency", "negQueueLimit", "negDelay", "delayWithLimit0", "missingDep", "foreignDep", "badStrategy", "duplicateName", "concurrencyString", "tasksScalar", "scriptMap", "delayGarbage", "limitString", "retentionNeg"}
 	mustReject := map[string]bool{"negConcurrency": true, "negQueueLimit": true, "negDelay": true, "delayWithLimit0": true, "missingDep": true, "foreignDep": true, "badStrategy": true, "duplicateName": true}
 	rapid.Check(t, func(rt *rapid.T) {
@@ -530,7 +530,12 @@ func TestC17Corrupt(t *testing.T) {
 			// a second file that declares the same pipeline name again
 			var sb strings.Builder
 			sb.WriteString("pipelines:\n")
-			emitPipeline(&sb, p, genPipeline(rt), emitOpts{})
+			// (often word for word the same definition: a name declared twice is refused whatever the bodies say)
+			body := genPipeline(rt)
+			if rapid.IntRange(0, 2).Draw(rt, "sameBody") > 0 {
+				body = defs.Pipelines[p]
+			}
+			emitPipeline(&sb, p, body, emitOpts{omitDefaults: rapid.Bool().Draw(rt, "dupOmitDefaults")})
 			dir := filepath.Join(root, rapid.SampledFrom([]string{"0dup", "zdup", "a/dup"}).Draw(rt, "dupDir"))
 			_ = os.MkdirAll(dir, 0o777)
 			f := filepath.Join(dir, "pipelines.yml")
